@@ -21,7 +21,8 @@ def models(tier):
     for c in (0, 1, 2):
         alpha += [("m", c, "cer_p0"), ("eof", c)]
     for c in (0, 1):
-        alpha += [("m", c, "cer_p1"), ("m", c, "cer_unknown"), ("m", c, "cer_nocommon"), ("m", c, "dpr"), ("rst", c), ("m", c, "dwa"), ("m", c, "badlen")]
+        alpha += [("m", c, "cer_p1"), ("m", c, "cer_unknown"), ("m", c, "cer_nocommon"), ("m", c, "dpr"), ("rst", c), ("m", c, "dwa"), ("m", c, "badlen"),
+                  ("m", c, "cer_capsp0")]
     # two connections have something for the node in the same instant: one merely makes it write, the other makes its reader close
     alpha += [("x", 0, "dwr", 1, "badlen"), ("x", 1, "dwr", 0, "badlen"), ("x", 0, "dwr", 1, "dpr")]
     out.append(monitors.ScenarioModel("inbound-up-to-3-connections", BASE, alpha, MONS, max_socks=3))
